@@ -406,3 +406,179 @@ Section Inserts.
       rewrite (pend_done ss AD), app_nil_r in P. exact P.
   Qed.
 End Inserts.
+
+(* ================================================================== C18: what is on disk after a crash *)
+Definition prefix_of (a b : list Z) : Prop := exists t, b = a ++ t.
+Definition eng_le (e e' : eng) : Prop :=
+  (forall d, has_db e d = true -> has_db e' d = true) /\
+  (forall d, booted e d = true -> booted e' d = true) /\
+  (forall d s, has_sch e d s = true -> has_sch e' d s = true) /\
+  (forall k rows, klook (tbls e) k = Some rows -> exists rows', klook (tbls e') k = Some rows' /\ prefix_of rows rows') /\
+  (forall k c, klook (cmts e) k = Some c -> exists c', klook (cmts e') k = Some c').
+
+Lemma prefix_refl a : prefix_of a a.
+Proof. exists []. rewrite app_nil_r. reflexivity. Qed.
+Lemma prefix_trans a b c : prefix_of a b -> prefix_of b c -> prefix_of a c.
+Proof. intros [t ->] [u ->]. exists (t ++ u). rewrite app_assoc. reflexivity. Qed.
+
+Lemma eng_le_refl e : eng_le e e.
+Proof. repeat split; auto; intros; eauto using prefix_refl. Qed.
+Lemma eng_le_trans a b c : eng_le a b -> eng_le b c -> eng_le a c.
+Proof.
+  intros (A1 & A2 & A3 & A4 & A5) (B1 & B2 & B3 & B4 & B5). repeat split; auto.
+  - intros k rows H. destruct (A4 _ _ H) as (r1 & H1 & P1). destruct (B4 _ _ H1) as (r2 & H2 & P2). eauto using prefix_trans.
+  - intros k c0 H. destruct (A5 _ _ H) as (c1 & H1). eauto.
+Qed.
+
+Lemma gkey_eqb_eq a : forall b, key_eqb a b = true -> a = b.
+Proof.
+  induction a as [|x a IH]; intros [|y b] H; cbn in H; try discriminate; [reflexivity|].
+  apply andb_true_iff in H. destruct H as [H1 H2]. apply str_eqb_eq in H1. f_equal; auto.
+Qed.
+
+Lemma gkey_eqb_refl a : key_eqb a a = true.
+Proof. induction a as [|x a IH]; cbn; [reflexivity|]. rewrite str_eqb_refl. exact IH. Qed.
+Lemma gkey_eqb_sym a b : key_eqb a b = key_eqb b a.
+Proof.
+  destruct (key_eqb a b) eqn:E.
+  - apply gkey_eqb_eq in E. subst. symmetry. apply gkey_eqb_refl.
+  - destruct (key_eqb b a) eqn:E'; [|reflexivity]. apply gkey_eqb_eq in E'. subst. rewrite gkey_eqb_refl in E. discriminate.
+Qed.
+
+Lemma klook_kput {X} (l : list (key * X)) k v k' :
+  klook (kput l k v) k' = if key_eqb k k' then Some v else klook l k'.
+Proof.
+  induction l as [|[k0 w] l IH]; cbn.
+  - destruct (key_eqb k k'); reflexivity.
+  - destruct (key_eqb k0 k) eqn:E; cbn.
+    + apply gkey_eqb_eq in E. subst k0. destruct (key_eqb k k'); reflexivity.
+    + rewrite IH. destruct (key_eqb k0 k') eqn:E2; [|reflexivity].
+      apply gkey_eqb_eq in E2. subst k0. rewrite gkey_eqb_sym, E. reflexivity.
+Qed.
+
+Lemma klook_app_none {X} (l : list (key * X)) k v k' : klook l k' = None -> klook (l ++ [(k, v)]) k' = if key_eqb k k' then Some v else None.
+Proof. induction l as [|[k0 w] l IH]; cbn; [reflexivity|]. destruct (key_eqb k0 k'); [discriminate|exact IH]. Qed.
+Lemma klook_app_some {X} (l : list (key * X)) x k' r : klook l k' = Some r -> klook (l ++ x) k' = Some r.
+Proof. induction l as [|[k0 w] l IH]; cbn; [discriminate|]. destruct (key_eqb k0 k'); [auto|exact IH]. Qed.
+
+Lemma tbls_le (t t' : list (key * list Z)) :
+  (forall k rows, klook t k = Some rows -> exists rows', klook t' k = Some rows' /\ prefix_of rows rows') -> True.
+Proof. auto. Qed.
+
+Arguments has_db : simpl never.
+Arguments has_sch : simpl never.
+Arguments booted : simpl never.
+
+(* no engine call of the model removes or rewrites anything durable *)
+Lemma exec_mono e c : eng_le e (fst (exec e c)).
+Proof.
+  destruct c as [d|d s|d|d|d s|d s|k|k c|k v|k|k| |k v|k vs| ]; cbn; try apply eng_le_refl.
+  - (* Attach *) destruct (has_db e d) eqn:H; [apply eng_le_refl|]. cbn. repeat split; cbn; auto; intros.
+    + unfold has_db in *. cbn [dbs]. rewrite existsb_app, H0. reflexivity.
+    + unfold booted in *. cbn [dbs]. rewrite existsb_app, H0. reflexivity.
+    + unfold has_sch in *. cbn [schs]. rewrite existsb_app, H0. reflexivity.
+    + eauto using prefix_refl.
+    + eauto.
+  - (* Boot *) destruct (has_db e d) eqn:H; [|apply eng_le_refl]. cbn. repeat split; cbn; auto; intros.
+    + unfold has_db in *. cbn [dbs]. rewrite existsb_exists in *. destruct H0 as ([n b] & I & E). cbn in E.
+      exists (if str_eqb n d then (n, true) else (n, b)). split.
+      * apply in_map_iff. exists (n, b). auto.
+      * destruct (str_eqb n d); exact E.
+    + unfold booted in *. cbn [dbs]. rewrite existsb_exists in *. destruct H0 as ([n b] & I & E). cbn in E.
+      exists (if str_eqb n d then (n, true) else (n, b)). split.
+      * apply in_map_iff. exists (n, b). auto.
+      * apply andb_true_iff in E. destruct E as [E1 E2]. cbn in E2. subst b. destruct (str_eqb n d); cbn; rewrite E1; reflexivity.
+    + eauto using prefix_refl.
+    + eauto.
+  - (* MkSchema *) destruct (has_db e d); [|apply eng_le_refl]. destruct (has_sch e d s) eqn:H; [apply eng_le_refl|]. cbn.
+    repeat split; cbn; auto; intros; eauto using prefix_refl. unfold has_sch in *. cbn [schs]. rewrite existsb_app, H0. reflexivity.
+  - (* SetSchema *) destruct (has_sch e d s); apply eng_le_refl.
+  - (* MkTable *) destruct (negb (has_db e (kd k))); [apply eng_le_refl|]. destruct (has_sch e (kd k) (ks k)); [|apply eng_le_refl].
+    destruct (klook (tbls e) k) eqn:H; [apply eng_le_refl|]. cbn. repeat split; cbn; auto; intros; eauto.
+    exists rows. split; [apply klook_app_some; assumption|apply prefix_refl].
+  - (* PutComment *) destruct (booted e (kd k)); [|apply eng_le_refl]. cbn. repeat split; cbn; auto; intros; eauto using prefix_refl.
+    rewrite klook_kput. destruct (key_eqb k k0); eauto.
+  - (* InsertRow *) destruct (klook (tbls e) k) as [rows|] eqn:H; [|apply eng_le_refl]. cbn. repeat split; cbn; auto; intros; eauto.
+    rewrite klook_kput. destruct (key_eqb k k0) eqn:E.
+    + apply gkey_eqb_eq in E. subst k0. rewrite H in H0. injection H0 as <-. exists (rows ++ [v]). split; [reflexivity|]. exists [v]. reflexivity.
+    + eauto using prefix_refl.
+  - (* ReadTable *) destruct (klook (tbls e) k); apply eng_le_refl.
+  - (* TxStage *) destruct (klook (tbls e) k); apply eng_le_refl.
+  - (* CommitRows *) destruct (klook (tbls e) k) as [rows|] eqn:H; [|apply eng_le_refl]. cbn. repeat split; cbn; auto; intros; eauto.
+    rewrite klook_kput. destruct (key_eqb k k0) eqn:E.
+    + apply gkey_eqb_eq in E. subst k0. rewrite H in H0. injection H0 as <-. exists (rows ++ vs). split; [reflexivity|]. exists vs. reflexivity.
+    + eauto using prefix_refl.
+Qed.
+
+Lemma turn_mono e x : eng_le e (fst (fst (turn e x))).
+Proof.
+  unfold turn. destruct (todo x) as [|o rest]; [apply eng_le_refl|]. destruct (fetch o (pc x)) as [c|]; [|apply eng_le_refl].
+  pose proof (exec_mono e c) as M. destruct (exec e c) as [e' a]. exact M.
+Qed.
+
+Lemma sched_step_mono lk st i : eng_le (fst st) (fst (sched_step lk st i)).
+Proof.
+  destruct st as [e ss]. unfold sched_step. destruct (nth_error ss i) as [x|]; [|apply eng_le_refl].
+  destruct (lk && wants_lock x && negb (lock_free_for ss i)); [apply eng_le_refl|].
+  pose proof (turn_mono e x) as M. destruct (turn e x) as [[e' x'] c]. exact M.
+Qed.
+
+Lemma run_sched_mono lk sch : forall st, eng_le (fst st) (fst (run_sched lk sch st)).
+Proof.
+  unfold run_sched. induction sch as [|i sch IH]; intros st; [apply eng_le_refl|]. cbn [fold_left].
+  eapply eng_le_trans; [apply sched_step_mono|apply IH].
+Qed.
+
+Lemma firstn_plus {X} (l : list X) : forall n m, firstn (n + m) l = firstn n l ++ firstn m (skipn n l).
+Proof. induction l as [|x l IH]; intros [|n] m; cbn; try reflexivity; [destruct m; reflexivity|]. rewrite IH. reflexivity. Qed.
+
+(* Whatever was durable at one crash point is durable at every later one: databases, their bootstrap, schemas, tables,
+   every row in its place, every recorded comment - for every set of sessions and every schedule *)
+Theorem committed_survives_l : forall lk sch scripts n n', (n <= n')%nat -> eng_le (crash lk sch n scripts) (crash lk sch n' scripts).
+Proof.
+  intros lk sch scripts n n' H. unfold crash.
+  assert (E : firstn n' sch = firstn n sch ++ firstn (n' - n) (skipn n sch)).
+  { replace n' with (n + (n' - n))%nat at 1 by lia. rewrite firstn_plus. reflexivity. }
+  rewrite E. unfold run_sched. rewrite fold_left_app. apply (run_sched_mono lk (firstn (n' - n) (skipn n sch))).
+Qed.
+
+(* a statement that completed before the crash left its effect: the row is in the table, the table exists, ... *)
+Lemma insert_effect_l e k v e' : exec e (InsertRow k v) = (e', AOk) -> exists rows, klook (tbls e') k = Some (rows ++ [v]).
+Proof.
+  cbn. destruct (klook (tbls e) k) as [rows|] eqn:H; intros E; [|discriminate]. injection E as <-. exists rows. cbn. rewrite klook_kput.
+  assert (R : key_eqb k k = true) by (clear; induction k as [|a r IH]; cbn; [reflexivity|]; rewrite str_eqb_refl; exact IH). rewrite R. reflexivity.
+Qed.
+
+(* transactions: the ONLY call of BEGIN; INSERT...; COMMIT that touches the durable state is the COMMIT, which adds all
+   rows at once; a transaction that is rolled back or left open never touches it *)
+Theorem tx_only_commit_writes_l : forall e k vs b p c, fetch (TxInserts k vs b) p = Some c -> c <> CommitRows k vs -> fst (exec e c) = e.
+Proof.
+  intros e k vs b p c F N. destruct p as [|i]; cbn in F.
+  - injection F as <-. reflexivity.
+  - destruct (nth_error vs i) as [v|]; [injection F as <-; cbn; destruct (klook (tbls e) k); reflexivity|].
+    destruct (Nat.eqb i (length vs)); [|discriminate]. destruct b; injection F as <-; [contradiction|reflexivity].
+Qed.
+Theorem tx_uncommitted_absent_l : forall e k vs p c, fetch (TxInserts k vs false) p = Some c -> fst (exec e c) = e.
+Proof.
+  intros e k vs p c F. apply (tx_only_commit_writes_l e k vs false p c F). intros ->.
+  destruct p as [|i]; cbn in F; [discriminate|]. destruct (nth_error vs i); [discriminate|]. destruct (Nat.eqb i (length vs)); discriminate.
+Qed.
+Theorem tx_commit_all_at_once_l : forall e k vs rows, klook (tbls e) k = Some rows -> klook (tbls (fst (exec e (CommitRows k vs)))) k = Some (rows ++ vs).
+Proof.
+  intros e k vs rows H. cbn. rewrite H. cbn. rewrite klook_kput.
+  assert (R : key_eqb k k = true) by (clear; induction k as [|a r IH]; cbn; [reflexivity|]; rewrite str_eqb_refl; exact IH). rewrite R. reflexivity.
+Qed.
+
+(* "a statement interrupted by the kill is either fully there or not at all" is FALSE for multi-call statements *)
+Lemma multi_step_atomic_refuted_l : exists n,
+  let h := [[Connect DB SC; CreateTable TK (Some (lit "c"))]] in
+  klook (tbls (crash false (repeat 0%nat 20) n h)) TK = Some [] /\ klook (cmts (crash false (repeat 0%nat 20) n h)) TK = None /\
+  klook (cmts (crash false (repeat 0%nat 20) 20 h)) TK = Some (lit "c").
+Proof. exists 9%nat. vm_compute. repeat split. Qed.
+
+Lemma crash_nonvacuous_l :
+  let h := [[Connect DB SC; CreateTable TK (Some (lit "c")); Insert TK 1; TxInserts TK [2; 3] true; TxInserts TK [4; 5] false; Insert TK 6]] in
+  klook (tbls (crash false (repeat 0%nat 40) 14 h)) TK = Some [1] /\        (* killed inside the first transaction *)
+  klook (tbls (crash false (repeat 0%nat 40) 15 h)) TK = Some [1; 2; 3] /\  (* after its COMMIT *)
+  klook (tbls (crash false (repeat 0%nat 40) 40 h)) TK = Some [1; 2; 3; 6]. (* the rolled-back rows never appear *)
+Proof. vm_compute. repeat split. Qed.
